@@ -126,13 +126,18 @@ def run(ctx):
     base_jobs, meta = [], []
     flagsets = [[]] if ctx.tier == "quick" else [[], ["--verbose"], ["--quiet"]]
     for n, flags in [(n, f) for n in names for f in flagsets]:
-        for ch in ("path", "dash", "noarg"):
+        for ch in ("path", "dash", "noarg", "spacepath"):
             for fmt in ("json", "csv"):
                 args = flags + ["report"] + (["--csv"] if fmt == "csv" else [])
                 job = {"files": {}}
                 if ch == "path":
                     job["files"] = {"in.tjp": ins[n]}
                     args.append("in.tjp")
+                elif ch == "spacepath":
+                    if n not in ("simple", "own-both", "utf8"):
+                        continue
+                    job["files"] = {"my plan v2.project": ins[n]}
+                    args.append("my plan v2.project")
                 else:
                     job["stdin"] = ins[n]
                     if ch == "dash":
@@ -168,7 +173,8 @@ def run(ctx):
     for n in names:
         for fmt in ("json", "csv"):
             a, b, c = outputs[(n, "path", fmt)], outputs[(n, "dash", fmt)], outputs[(n, "noarg", fmt)]
-            if not (a == b == c):
+            d = outputs.get((n, "spacepath", fmt), a)
+            if not (a == b == c == d):
                 st.by_clause["channel"] = st.by_clause.get("channel", 0) + 1
                 ctx.violation("channel", f"{n}-{fmt}", {"detail": f"[{n}, {fmt}] stdout differs between file ({a[:160]!r}...) and stdin ({b[:160]!r}...) input", "input": n})
     for n in ("own-json", "own-csv", "own-both"):
